@@ -104,6 +104,31 @@ def lemmas(idx):
                     else: lanes = ['((%s * %s + %s * %s) * (k1 / %s))%%K' % (x, s1, y, s2, ts) for x, y in zip(A, E2)]
                     add(cfg, f, vs, args, st, lanes, 'slerp, %s: (a sin((1-s)t) + b sin(st)) / sin t with t = acos(a.b)' % ('flipped to the shorter arc' if flip else 'no flip'), hyps=[h1, alg.cmp_hyp('FGt', dot, thr, False)], tactic=alg.cond_tac(), tblx=tblx)
             except SymErr: continue
+    # ---- quaternion lerp (two paths: bias +-1 by the sign of the dot product, then normalised lerp) and from_rotation_arc (the two regular paths)
+    for cfg in CFGS:
+        structs = idx.structs(cfg)
+        for f in idx.fns(cfg):
+            st = f['self']; tn = tname(st) if st is not None else None
+            if tn not in ('Quat', 'DQuat') or f['generic'] or f['by_ref'] or not f['pub'] or f['fid'] is None: continue
+            k = 'f32' if tn == 'Quat' else 'f64'
+            try:
+                if f['name'] == 'lerp' and f['has_self'] and len(f['params']) == 2 and not (tn == 'Quat' and cfg in ('sse2', 'coresimd')):      # the SIMD forms flip `end` by xor-ing the sign bit of the dot product: not expressible over a field (differential only)
+                    vs = []; a = sym(structs, st, 'a', vs); b = sym(structs, st, 'b', vs); s_ = sym(structs, k, 's', vs); A = [l[2] for l in tree_leaves(a)]; E = [l[2] for l in tree_leaves(b)]; sv = s_[2]
+                    d0 = alg.S([alg.P(x, y) for x, y in zip(A, E)]); args = [tree_coq(a), tree_coq(b), tree_coq(s_)]
+                    for pos in (True, False):
+                        E2 = [('(%s * k1)%%K' % y) if pos else ('(%s * (- k1))%%K' % y) for y in E]
+                        n_ = ['(%s * (k1 - %s) + %s * %s)%%K' % (x, sv, y, sv) for x, y in zip(A, E2)]; nn = alg.S([alg.P(x, x) for x in n_])
+                        add(cfg, f, vs, args, st, ['(%s * (k1 / k_un FSqrt %s))%%K' % (x, nn) for x in n_], 'quaternion lerp, dot %s 0: normalize(a (1-s) + (%sb) s)' % ('>=' if pos else '<', '' if pos else '-'), hyps=[alg.cmp_hyp('FGe', d0, 'k0', pos)], tactic=alg.cond_tac())
+                elif f['name'] == 'from_rotation_arc' and not f['has_self'] and len(f['params']) == 2:
+                    vt = f['params'][0][1]; vs = []; a = sym(structs, vt, 'a', vs); b = sym(structs, vt, 'b', vs); A = [l[2] for l in tree_leaves(a)]; Bv = [l[2] for l in tree_leaves(b)]
+                    if len(A) != 3: continue
+                    d0 = alg.S([alg.P(x, y) for x, y in zip(A, Bv)]); eps = '(lit32 872415232)' if k == 'f32' else '(lit64 4372995238176751616)'; ome = '(k1 - (k1 + k1) * %s)%%K' % eps
+                    args = [tree_coq(a), tree_coq(b)]
+                    add(cfg, f, vs, args, st, ['k0', 'k0', 'k0', 'k1'], 'from_rotation_arc: from ~ to -> identity', hyps=[alg.cmp_hyp('FGt', d0, ome, True)], tactic=alg.cond_tac())
+                    c = ['(%s * %s - %s * %s)%%K' % (A[1], Bv[2], A[2], Bv[1]), '(%s * %s - %s * %s)%%K' % (A[2], Bv[0], A[0], Bv[2]), '(%s * %s - %s * %s)%%K' % (A[0], Bv[1], A[1], Bv[0])]
+                    q = c + ['(k1 + %s)%%K' % d0]; nn = alg.S([alg.P(x, x) for x in q])
+                    add(cfg, f, vs, args, st, ['(%s * (k1 / k_un FSqrt %s))%%K' % (x, nn) for x in q], 'from_rotation_arc: regular case normalize((from x to, 1 + from.to))', hyps=[alg.cmp_hyp('FGt', d0, ome, False), alg.cmp_hyp('FLt', d0, '(- %s)%%K' % ome, False)], tactic=alg.cond_tac())
+            except SymErr: continue
     files = {}; nfiles = max(1, (len(order) + 5) // 6)
     for i, lem in enumerate(order): files.setdefault('Itp_%03d' % (i % nfiles), []).append(lem)
     notes['covered_functions'] = len(cover); notes['distinct_statements'] = n; notes['untranslated_count'] = len(notes['untranslated'])
